@@ -4,7 +4,7 @@ import json
 import sockcheck
 import sockgen
 
-LEAN_MODULES = ["PyAirtouch.Props.C01", "PyAirtouch.Props.C01Order", "PyAirtouch.Props.C01Loss"]
+LEAN_MODULES = ["PyAirtouch.Props.C01", "PyAirtouch.Props.C01Order", "PyAirtouch.Props.C01Loss", "PyAirtouch.Props.C01Cancel"]
 LEVEL = "proof"
 MONITORS = ["c01a", "c01b", "c01c", "c01d", "c02a", "c02b"]
 
@@ -47,9 +47,15 @@ def _cancel_window(ctx, gen):
                             ("send", 6, "ok", "idem"), ("adv", 8)])
             scripts.append([("net", "accept"), ("open",), ("adv", 8), ("block", 1), ("send", 1, "ok", "idem"), ("turn", k), ("send", 2, "ok", "idem"), ("turn", j),
                             ("cancel", 1), ("turn", 1), ("block", 0), ("adv", 40)])
-    for sc, r in zip(scripts, sockcheck.run_scripts(scripts, gen=gen)):
+    results = sockcheck.run_scripts(scripts, gen=gen)
+    for sc, r in zip(scripts, results):
         if "error" in r:
             raise RuntimeError("socket harness failed on %r: %s" % (sc, r["error"]))
+    # the tie: every recorded run, the cancellation included (`vl cancel <task>` = label `cancel` of Sock.stepX, Model/SockX.lean),
+    # is replayed block by block against the Lean model
+    sockcheck.validate_against_model(ctx, [("cancel-window", sc, r) for sc, r in zip(scripts, results)], "AT%d cancel-window" % gen)
+    ctx.count("cancel_labels_replayed", sum(1 for r in results for l in sockobs.validation_lines(r) if l.startswith("vl cancel ")))
+    for sc, r in zip(scripts, results):
         ctx.case(("cancel-window", gen, json.dumps(sc)))
         cancelled = [op[1] for op in sc if op[0] == "cancel"]
         accepted = [int(l.split()[1]) for l in r["obs"] if l.startswith("accept ")]
@@ -71,6 +77,23 @@ def _cancel_window(ctx, gen):
             return
 
 
+def _cancel_reset_window():
+    """the caller of a send() is cancelled while it is tearing the connection down after a failed write (inside the shielded wait for
+    the transport to close, inside the disconnect notification) or while another task resets / the peer ends the connection: safety
+    (nothing unsubmitted, at most once and in order without a fault, every drop justified) must hold whatever the caller does, and the
+    Lean model must follow the recording, cancellation included"""
+    out = []
+    for k in range(0, 7):
+        out.append(("cancel", [("net", "accept"), ("open",), ("adv", 8), ("failw", 1), ("send", 1, "ok", "idem"), ("turn", k), ("cancel", 1), ("adv", 40),
+                               ("send", 2, "ok", "idem"), ("adv", 8)]))
+        out.append(("cancel", [("net", "accept"), ("open",), ("adv", 8), ("failw", 1), ("send", 1, "ok", "nonidem"), ("send", 3, "ok", "idem"), ("turn", k), ("cancel", 3),
+                               ("turn", 1), ("cancel", 1), ("adv", 40), ("send", 2, "ok", "idem"), ("adv", 8)]))
+        for trigger in ([("peer", "reset")], [("peer", "eof")], [("reset",)]):
+            out.append(("cancel", [("net", "accept"), ("open",), ("adv", 8), ("block", 1), ("send", 1, "ok", "idem"), ("turn", 1)] + trigger
+                        + [("turn", k), ("cancel", 1), ("adv", 40), ("send", 2, "ok", "idem"), ("adv", 8)]))
+    return out
+
+
 def _nontrivial(script, r):
     return sum(1 for op in script if op[0] == "send") >= 2
 
@@ -85,7 +108,9 @@ def run(ctx, deep=False):
         "send; reset-window scripts (a command accepted k = 0..5 loop passes after another task started resetting the connection); monitors "
         "wireOnlySubmitted / onceInOrderWithoutFault / deliveredWhenPossible / noSilentLoss (every drop has a true reason; after the network heals every "
         "accepted message has been written, has failed a write or was dropped); every run replayed block by block "
-        "against the Lean model. distinct = distinct scripts; non-trivial = at least two sends")
+        "against the Lean model, including the cancel-window runs (a caller of send() cancelled while blocked in drain() on a congested link, "
+        "while tearing the connection down after a failed write, or while another task resets it): the harness's cancellation is followed by the "
+        "label `cancel` of the extended model. distinct = distinct scripts; non-trivial = at least two sends")
     plan = [("outage", 150 * k), ("steady", 100 * k), ("faults", 100 * k)]
     for gen in (4, 5):
         items = sockcheck.gen_scripts(ctx.seed * 131 + gen, plan)
@@ -94,7 +119,11 @@ def run(ctx, deep=False):
         good = sockcheck.judge_family(ctx, "C01", items, MONITORS, gen=gen, nontrivial=_nontrivial)
         sockcheck.validate_against_model(ctx, good, "AT%d" % gen)
         _cancel_window(ctx, gen)
-    ctx.assumptions += ["cancellation of a caller of send() is exercised on the implementation only (the socket model has no label for it)", "partial writes / the kernel send buffer are below the model (owned by asyncio's transport)"]
+        good = sockcheck.judge_family(ctx, "C01", _cancel_reset_window(), ["c01a", "c01b", "c01d"], gen=gen, nontrivial=_nontrivial)
+        sockcheck.validate_against_model(ctx, good, "AT%d cancel-reset-window" % gen)
+    ctx.assumptions += ["cancellation is modelled for callers suspended inside the socket (label `cancel` of Model/SockX.lean, theorems Props/C01Cancel.lean) and "
+                        "exercised for callers of send(); a caller cancelled before its coroutine has started has not called the socket",
+                        "partial writes / the kernel send buffer are below the model (owned by asyncio's transport)"]
 
 
 def search(ctx):
